@@ -5,5 +5,6 @@ CONSTANTS
   U <- MCU
   Final = "final"
   ZeroFill = TRUE
+  OnWriteError = "rename"
 INVARIANTS NoStartupError AtomicRecover SyncedBeforeRename FinalOnlyByRename
 CHECK_DEADLOCK FALSE
